@@ -24,11 +24,12 @@ Theorem C07_methods_safe : forall es,
   (forall fam, safe [] (open_prog fam)) /\ safe [] (q_shstrtab es) /\ (forall n, safe [] (q_by_name es n)) /\
   (forall f0 h, safe [] (q_section_data es f0 h)) /\ (forall ty h, safe [] (q_typed ty h)) /\
   (forall h, safe [] (q_notes h)) /\ (forall h, safe [] (q_seg_notes h)) /\ safe [] (q_dynamic es) /\
-  (forall ty, safe [] (q_symtab_of_type es ty)).
+  (forall ty, safe [] (q_symtab_of_type es ty)) /\ safe [] (q_symver es).
 Proof.
   intros es. repeat split; intros.
   - apply safe_open. - apply safe_shstrtab. - apply safe_by_name. - apply safe_section_data.
   - apply safe_typed. - apply safe_notes. - apply safe_seg_notes. - apply safe_dynamic. - apply safe_symtab.
+  - apply safe_symver.
 Qed.
 
 (* opening: through a fault-free stream exactly the content-only reading of open_prog ... *)
@@ -73,6 +74,10 @@ Theorem C07_by_name : forall f eb, buf_ok f -> forall r, eb_shdrs eb = Some r ->
   table_is_empty (shdr_size (e_class (eb_ehdr eb))) (view f r) = false ->
   forall name x, shdr_by_name f eb name = Some x -> sim (eval f (q_by_name (es_of f eb) name)) x.
 Proof. exact by_name_equiv. Qed.
+Theorem C07_symbol_versions : forall f eb, buf_ok f -> forall r x, eb_shdrs eb = Some r ->
+  symbol_version_table f eb = Some x ->
+  sim (eval f (q_symver (es_of f eb))) (rmap (option_map (conv_symver f)) x).
+Proof. exact symver_equiv. Qed.
 Theorem C07_dynamic : forall f eb, buf_ok f -> forall v, dynamic f eb = Some (Ok v) ->
   (forall r, eb_shdrs eb = Some r -> table_is_empty (shdr_size (e_class (eb_ehdr eb))) (view f r) = false) ->
   (forall r l h, eb_shdrs eb = Some r -> shdr_list f eb r = Some l ->
